@@ -12,12 +12,21 @@ def capitalize (s : String) : String :=
   | [] => ""
   | c :: cs => String.ofList (c.toUpper :: cs.map Char.toLower)
 
-def snakeToCamel (s : String) : String :=
-  String.join ((s.splitOn "_").map capitalize)
+def isDigits (s : String) : Bool := !s.isEmpty && s.toList.all Char.isDigit
 
-/-- the templates' `camelcase`: `x.capitalize() or '_'` -/
-def camelcaseTpl (s : String) : String :=
-  String.join ((s.splitOn "_").map fun x => let c := capitalize x; if c.isEmpty then "_" else c)
+/-- `utils.snake_to_camel`: capitalize each `_`-separated piece; the underscore between two
+    numeric pieces is kept (so `r_1_10` and `r_11_0` stay different) -/
+def snakeToCamel (s : String) : String :=
+  let parts := s.splitOn "_"
+  let rec go (prev : Option String) : List String → String
+    | [] => ""
+    | p :: rest =>
+      (if (match prev with | some q => isDigits q && isDigits p | none => false) then "_" else "") ++
+        capitalize p ++ go (some p) rest
+  go none parts
+
+/-- the router templates use the same function since the CamelCase fix -/
+def camelcaseTpl (s : String) : String := snakeToCamel s
 
 structure EpInst where
   ep : EpDesc
